@@ -9,8 +9,8 @@ spec -> code, two specifications:
                  compares header and rows.
   TableText.tla  character-level models of the two delimited writers (csv.writer used by
                  Table.write, format.table.separator_format used by to_csv/to_tsv/to_string)
-                 and of the csv.excel reader.  TLC proves the csv.writer model lossless and
-                 characterises exactly when separator_format is not; the harness writes real
+                 and of the csv.excel reader.  TLC proves both writer models lossless (the
+                 separator_format one only since its repair); the harness writes real
                  tables to tsv/csv (plain, gz), json and pickle, reloads them with load_table
                  and compares header, cell text and numeric restoration with the spec.
 """
@@ -84,8 +84,6 @@ class TlcJobs:
             "big": ("Table", f"MC_Table_big_{tier}.cfg", 1, True),
             "design": ("TableText", f"MC_Table_text_design_{tier}.cfg", w, True),
             "io": ("TableText", f"MC_Table_text_io_{tier}.cfg", 4, True),
-            # expected to end with a counterexample
-            "cx": ("TableText", "MC_Table_textcx.cfg", 1, False),
         }
         self.pool = ThreadPoolExecutor(len(self.specs))
         self.futs = {name: self.pool.submit(self._job, name) for name in self.specs}
